@@ -144,6 +144,7 @@ add("lpattern", L(P("PATTERN", S("abc")), P("REGEX", S("a.*"))),
 add("z1", Z(3, "", "code here"), [[("first", []), ("rel", ["```"]), ("raw", ["code here"]), ("rel", ["```"])]], "core")
 add("zpy", Z(3, "python", "a -> b", "  k::v # c"), [[("first", []), ("rel", ["```", "python"]), ("raw", ["a -> b"]), ("raw", ["  k::v # c"]), ("rel", ["```"])]], "core")
 add("z4", Z(4, "", "```", "===END==="), [[("first", []), ("rel", ["````"]), ("raw", ["```"]), ("raw", ["===END==="]), ("rel", ["````"])]], "full")
+add("ztrail", Z(3, "", "trail  ", "tab{U0009}"), [[("first", []), ("rel", ["```"]), ("raw", ["trail  "]), ("raw", ["tab", "U0009"]), ("rel", ["```"])]], "core")
 add("zempty", Z(3, "", ), [[("first", []), ("rel", ["```"]), ("rel", ["```"])]], "core")
 add("ztab", Z(3, "txt", "{U0009}x", "cafe{U0301}", 'q"\\n'), [[("first", []), ("rel", ["```", "txt"]), ("raw", ["U0009", "x"]), ("raw", ["cafe", "U0301"]), ("raw", ['q"\\n']), ("rel", ["```"])]], "full")
 add("zblank", Z(3, "", "x", "", "---"), [[("first", []), ("rel", ["```"]), ("raw", ["x"]), ("raw", []), ("raw", ["---"]), ("rel", ["```"])]], "full")
